@@ -327,6 +327,7 @@ func vScenarioC19(rc *runCtx) {
 		lastServerOut = w.Now()
 		serverDone = true
 	})
+	ctrlAt := time.Duration(-1)
 	if ctrlC != 0 {
 		w.Go("user", client, func() {
 			d := time.Duration(tp.Draw("c19.ctrlcat", 1500)) * time.Millisecond
@@ -334,6 +335,7 @@ func vScenarioC19(rc *runCtx) {
 				d = time.Duration(tp.Draw("c19.ctrlcat.early", 120)) * time.Millisecond
 			}
 			verifsim.Sleep(d)
+			ctrlAt = w.Now()
 			kbd.Write([]byte{0x03})
 		})
 	}
@@ -412,6 +414,32 @@ func vScenarioC19(rc *runCtx) {
 			rc.violate("cancel", "C19:server-not-cancelled", "the session ended abnormally (helper %s, server %s, ctrl-c %d, files %v) but the server never received the cancel sequence; server got %s",
 				helperKind, serverKind, ctrlC, haveFiles, vQuote(upAll, 100))
 			return
+		}
+		// a Ctrl-C in the first moments of a session (the helper is not running yet, the chooser may be open) is a
+		// Ctrl-C like any other: the server is told within a second of the key
+		if ctrlC == 2 && ctrlAt >= 0 && !serverCancelled {
+			sent, _, evs := up.Snapshot()
+			told := time.Duration(-1)
+			passedOn := false
+			for _, e := range evs {
+				if bytes.Contains(sent[e.Off:e.Off+e.N], vZCancel[:10]) {
+					// (told before the key: the session had already ended for a reason of its own)
+					told = e.T
+					break
+				}
+				if e.T >= ctrlAt && e.T <= ctrlAt+200*time.Millisecond && e.N == 1 && sent[e.Off] == 0x03 {
+					// the key itself went to the remote side: the client had not taken the session up yet
+					passedOn = true
+				}
+			}
+			if passedOn {
+				told = ctrlAt
+			}
+			rc.res.Scenario["ctrl_c_at"], rc.res.Scenario["server_told_at"] = ctrlAt.String(), told.String()
+			if told < 0 || told > ctrlAt+time.Second {
+				rc.violate("cancel", "C19:early-ctrl-c-ignored", "Ctrl-C at %v (helper %s, started at %v; server %s): the server was sent the cancel sequence at %v (-1ns: never)", ctrlAt, helperKind, helperStartAt, serverKind, told)
+				return
+			}
 		}
 		// the server gave up before the helper was started (the chooser was still open): a helper started
 		// afterwards is told at once (what a helper that ignores the cancel sequence writes before it is killed
